@@ -61,15 +61,26 @@ def addTag (ts : List String) (t : String) : List String := if t == "" || ts.con
 def handle (fields : List String) : String :=
   match fields with
   | [_, callsS, shapeS, faultS] =>
-    let calls := (splitNonEmpty callsS ";").map parseCall
+    -- `CT` is not a call on the writer: the handler (or a middleware) presets `Content-Type: text/html; charset=utf-8`
+    -- in the header map before anything is sent; the driver applies it to the model state directly
+    let items := splitNonEmpty callsS ";"
+    let calls := items.map fun it => if it == "CT" then some (Call.fd) else parseCall it
+    let isCT := items.map (· == "CT")
     if calls.any Option.isNone then "M=bad-case" else
     let sh := parseShape shapeS
     let s0 := init (parseFault faultS)
-    let (_, ms, ss, tags) := calls.foldl (fun (acc : St × List String × List String × List String) oc =>
+    let (_, ms, ss, tags) := (calls.zip isCT).foldl (fun (acc : St × List String × List String × List String) occ =>
       let (s, ms, ss, tags) := acc
-      match oc with
-      | none => acc
-      | some c =>
+      match occ with
+      | (none, _) => acc
+      | (some _, true) =>
+        let s' := setCT s .html
+        let a := s'.ans
+        let m := join [toString a.status, b01 a.written, toString a.size, "-", "ok", showCT s'.u.ct, "-"] ","
+        let sp := join [toString (Spec.status s'.u.log), b01 (Spec.written s'.u.log), toString (Spec.size s'.u.log),
+                        (if Spec.wellFormed s'.u.log then "wf" else "illformed")] ","
+        (s', ms ++ [m], ss ++ [sp], addTag tags "ct-preset")
+      | (some c, false) =>
         let (s', r) := step sh s c
         let evs := s'.u.log.drop s.u.log.length
         let a := s'.ans
